@@ -1215,6 +1215,11 @@ func Returns(fn *ssa.Function, k int) []ReturnSite {
 		if !ok {
 			continue
 		}
+		// the block go/ssa adds for "a deferred call recovered from a panic" is a return only when some
+		// deferred call of this function can recover
+		if b == fn.Recover && !mayRecover(fn) {
+			continue
+		}
 		rs := ReturnSite{Ret: ret}
 		if k >= 0 && k < len(ret.Results) {
 			v := ret.Results[k]
@@ -1275,4 +1280,63 @@ func MayBeNil(v ssa.Value) (nilPossible bool, known bool) {
 		return true, false
 	}
 	return false, true
+}
+
+var mayRecoverMemo = map[*ssa.Function]bool{}
+
+// mayRecover reports whether fn defers something that (as far as can be seen: literals and static callees,
+// two levels) calls the builtin recover.
+func mayRecover(fn *ssa.Function) bool {
+	if v, ok := mayRecoverMemo[fn]; ok {
+		return v
+	}
+	res := false
+	var calls func(f *ssa.Function, depth int) bool
+	calls = func(f *ssa.Function, depth int) bool {
+		if f == nil || f.Blocks == nil {
+			return f != nil && depth < 2 // a deferred call into code we cannot see: assume it may
+		}
+		found := false
+		Instrs(f, func(in ssa.Instruction) {
+			c, ok := in.(ssa.CallInstruction)
+			if !ok {
+				return
+			}
+			if b, ok := c.Common().Value.(*ssa.Builtin); ok && b.Name() == "recover" {
+				found = true
+				return
+			}
+			if depth > 0 {
+				if sc := c.Common().StaticCallee(); sc != nil && sc.Blocks != nil && calls(sc, depth-1) {
+					found = true
+				}
+			}
+		})
+		return found
+	}
+	Instrs(fn, func(in ssa.Instruction) {
+		d, ok := in.(*ssa.Defer)
+		if !ok {
+			return
+		}
+		if sc := d.Call.StaticCallee(); sc != nil {
+			if sc.Blocks != nil && calls(sc, 2) {
+				res = true
+			}
+			return
+		}
+		for _, o := range Origins(d.Call.Value) {
+			if mc, ok := o.(*ssa.MakeClosure); ok {
+				if calls(mc.Fn.(*ssa.Function), 2) {
+					res = true
+				}
+			} else if d.Call.IsInvoke() {
+				// a deferred interface method (Close, Unlock ...): does not recover for us
+			} else {
+				res = true // a function value we cannot resolve
+			}
+		}
+	})
+	mayRecoverMemo[fn] = res
+	return res
 }
